@@ -29,9 +29,11 @@ PROPS["C16"] = dict(
     legs=[
         Leg("map", ["models/c16_bankmap.cpp"], "fast", ["--depth", "6"], ["--depth", "9"], timeout_thorough=14000),
         Leg("map_asan", ["models/c16_bankmap.cpp"], "asan", ["--depth", "4"], ["--depth", "5"]),
+        # second 6-key universe on the first, the last and a middle bucket of the table (three ids chained in bucket 255, where the iterator's scan runs off the table)
+        Leg("map_edge", ["models/c16_bankmap.cpp"], "fast", ["--universe", "edge", "--depth", "5"], ["--universe", "edge", "--depth", "8"], timeout_thorough=14000),
     ],
     rule="breadth-first exploration of every sequence of bank API calls (getBank plain/Create/CreateRt, removeBank, first/next iteration, "
-         "reserveBanks, setInstrument, openBankData) over a 6-key universe colliding in 3 hash buckets; a state is distinct when the concrete "
+         "reserveBanks, setInstrument, openBankData) over a 6-key universe colliding in 3 hash buckets (and a second one on the first, last and a middle bucket); a state is distinct when the concrete "
          "bucket chains, capacity, free-list length, slot contents or the std::map reference differ; every transition runs on the real API",
     assumptions=COMMON_ASSUME + ["null chips replace the emulator cores (the bank API never touches them)",
                                  "bank handles are looked up afresh before each use (the header promises no validity across mutations)"],
